@@ -565,12 +565,55 @@ def r18e(ctx):
                    "the length parser takes characters other than digits and '.' into the number (or none at all): strings outside the ODF form decode to a wrong value instead of being rejected")
 
 
+def r18f(ctx):
+    """The colour encoder writes the channels it was given.
+
+    `hex2rgb(rgb2hex(t)) == t` for every tuple of three integers 0…255: rgb2hex formats each channel with `:02X` and hex2rgb parses the three
+    pairs back.  That holds because the tuple that is formatted *is* the argument.  An encoder that first reinterprets the tuple by looking
+    at its values ("all channels ≤ 1: normalised floats, scale by 255") changes seven integer colours — (0,0,1) … (1,1,1) — into others, and
+    the decoder cannot give them back.  Rule: in rgb2hex, on the tuple branch, every definition of the value whose items are formatted into
+    the result is the parameter itself; no arithmetic, comprehension or call produces it.
+    """
+    from ..paths import cfg_of, node_of, reaching_defs
+    repo = ctx.repo
+    ctx.rule("R18f", "rgb2hex formats the channels of the tuple it is given (no rescaling by value)", floor=1)
+    f = repo.func("utils.color:rgb2hex") if repo.find_func("utils.color:rgb2hex") else repo.func("color:rgb2hex")
+    param = f.node.args.args[0].arg
+    rets = [r for r in walk_no_nested(f.node) if isinstance(r, ast.Return) and isinstance(r.value, ast.JoinedStr)]
+    if not rets:
+        raise AnalysisError("R18f: rgb2hex no longer returns a formatted string")
+    cfg = cfg_of(f)
+    byid = {nd.id: nd for nd in cfg.nodes}
+    r = rets[-1]
+    names = {x.value.id for v in r.value.values if isinstance(v, ast.FormattedValue) for x in [v.value] if isinstance(x, ast.Subscript) and isinstance(x.value, ast.Name)}
+    if not names:
+        raise AnalysisError("R18f: the formatted channels are not items of a local")
+    bad = None
+    rn = node_of(cfg, r)
+    for nm in names:
+        for d in reaching_defs(cfg, nm).get(rn.id, frozenset()):
+            st = byid[d].stmt
+            if st is None:
+                continue
+            val = getattr(st, "value", None)
+            from_table = isinstance(val, ast.Subscript)       # the CSS colour table (string branch)
+            is_param = isinstance(val, ast.Name) and val.id == param
+            if isinstance(st, ast.Assign) and not (from_table or is_param):
+                bad = st
+    ctx.instance("R18f", f"{f.file}:{f.ident}", f"formatted value `{sorted(names)[0]}` is the argument or an entry of the colour table", ok=bad is None, nontrivial=True, line=r.lineno)
+    if bad is not None:
+        ctx.report("R18f", f, bad, norm(bad, 50),
+                   f"rgb2hex formats a tuple it computed (`{norm(bad, 50)}`) instead of the one it was given: integer colours whose channels fall in the reinterpreted range are written as "
+                   f"other colours, and hex2rgb(rgb2hex(t)) != t for them")
+
+
 def run(ctx):
     r18a(ctx)
     r18b(ctx)
     r18c(ctx)
     r18d(ctx)
     r18e(ctx)
+    r18f(ctx)
 
 
 from ..selftest import Seed, unparse_seed  # noqa: E402
@@ -578,6 +621,8 @@ from ..selftest import Seed, unparse_seed  # noqa: E402
 _DT = "src/odfdo/datatype.py"
 _CO = "src/odfdo/utils/color.py"
 SEEDS = [
+    Seed("rgb2hex rescales tuples whose channels are all at most 1", "fault", _CO,
+         "        code = color\n", "        code = tuple(round(c * 255) for c in color) if all(0 <= c <= 1 for c in color) else color\n", "R18f"),
     Seed("the grey spellings are dropped from the colour table", "fault", "src/odfdo/const.py", '    "grey": (128, 128, 128),\n', '', "R18c"),
     Seed("DateTime.decode cleans the text up before parsing it", "fault", _DT,
          "        try:\n            return datetime.fromisoformat(data)\n        except ValueError:\n            # maybe python 3.9",
